@@ -1,7 +1,9 @@
 package props
 
 import (
+	"fmt"
 	"go/token"
+	"os"
 	"strings"
 
 	"golang.org/x/tools/go/ssa"
@@ -376,6 +378,70 @@ func c09() []*Ob {
 							if Dominates(r.(ssa.Instruction), call.(ssa.Instruction)) {
 								okReset = true
 							}
+						}
+						if !okReset {
+							// ... or where it is taken out of the pool: every origin of the value is either created
+							// fresh or has reset called on it before the producer returns it
+							isReset := func(cl ssa.CallInstruction) bool {
+								return strings.Contains(CallName(cl), "bulkWriteStatus).reset") || strings.Contains(CallName(cl), "bulkWriteStatus).Reset")
+							}
+							all, any := true, false
+							for _, o := range c.P.Origins(a, nil, 3, nil) {
+								any = true
+								if os.Getenv("SEQVERIF_DEBUG") != "" {
+									fmt.Fprintf(os.Stderr, "C09.7 origin: %s\n", o.Val.String()) // SEQVERIF_DEBUG=1
+								}
+								fromPool := DerivesFrom(o.Val, func(v ssa.Value) bool {
+									cl, ok := v.(ssa.CallInstruction)
+									return ok && (CallName(cl) == "(*sync.Pool).Get" || strings.HasPrefix(CallName(cl), "dynamic"))
+								})
+								if !fromPool && DerivesFrom(o.Val, fresh) {
+									continue
+								}
+								if al, isAlloc := o.Val.(*ssa.Alloc); isAlloc && al.Heap {
+									continue // a new object
+								}
+								in, isIn := o.Val.(ssa.Instruction)
+								if !isIn || in.Parent() == nil {
+									all = false
+									continue
+								}
+								host := in.Parent()
+								if host == fn {
+									// taken from the pool in StoreDocuments itself: only a reset in front of the use counts (checked above)
+									all = false
+									continue
+								}
+								okHere := false
+								for _, r := range CallsIn(host, isReset) {
+									if len(r.Common().Args) == 0 || !SameValue(r.Common().Args[0], o.Val) {
+										continue
+									}
+									dominatesReturns, returned := true, false
+									for _, b := range host.Blocks {
+										ret, isRet := b.Instrs[len(b.Instrs)-1].(*ssa.Return)
+										if !isRet {
+											continue
+										}
+										for _, res := range ret.Results {
+											if SameValue(res, o.Val) {
+												returned = true
+												if !Dominates(r.(ssa.Instruction), ret) {
+													dominatesReturns = false
+												}
+											}
+										}
+									}
+									if dominatesReturns && returned {
+										okHere = true
+									}
+								}
+								if !okHere {
+									c.Note("write status origin %s in %s is not reset before it is returned", Short(o.Val.String()), FuncName(host))
+									all = false
+								}
+							}
+							okReset = any && all
 						}
 						if okReset {
 							c.Site(call.Pos(), "the reused write status is reset before its first use")
